@@ -231,8 +231,13 @@ func runOverlap(tier string, seed int64) {
 				}
 			}(gi)
 		}
+		stopGC := func() {}
+		if round == 1 { // the second round runs under a busy collector
+			stopGC = gcStorm()
+		}
 		close(startCh)
 		wg.Wait()
+		stopGC()
 		for gi := range res {
 			for _, r := range res[gi] {
 				emitOv(r, "hammer", gi)
